@@ -11,6 +11,18 @@ Four passes (all on the real dclab code, datasets are RTDC_Dict instances):
  qreal   correspondence  get_quantile_levels on real KDE grids of the meta
                          cases vs perc_lin of the model on the bilinearly
                          interpolated densities (exact dyadic integers)
+ cfake   correspondence  get_kde_contour (explicit accuracies, linear scale,
+                         stand-in estimator, also kde_type "none") vs
+                         kde_contour of the model (contour_flat)
+ dfake   correspondence  get_downsampled_scatter(ret_mask=True) with a
+                         stand-in for downsample_grid vs downsampled /
+                         scatter_mask of the model (down_flat)
+ history property oracle  one dataset object re-filtered 2-4 times (manual,
+                         box set/removed, disabled/enabled): statistics, tsv,
+                         contour, quantile levels after every apply_filter()
+                         vs definitions and a fresh restricted dataset
+ backend property oracle  HDF5-backed float32 dataset and hierarchy child vs
+                         the plain dataset of the selected events
  dtype   property oracle  features / positions stored as integer arrays
                          (int64 ... int8) must give the results of the same
                          values stored as float64 (every KDE function and
@@ -57,6 +69,9 @@ RULE = ("datasets of 0..150 events with 2-3 float features (dyadic values "
         "the selected count, tsv export, get_statistics(ds) over every "
         "registered method x every scalar feature (incl. index, emodulus), "
         "find_contours_level at the reported levels (open and closed); "
+        "explicit contour accuracies on every scale, kde_kwargs (bins, bw), "
+        "xax == yax, positions as one (2,N) array, methods=, tsv with "
+        "filtered=False, ret_mask=False, features <= 0 with maximum 0; "
         "box filters that exclude exactly the non-positive values before a "
         "log scale; plus a few datasets of 1200-3000 "
         "events with sequences of 2-4 filter states analysed with a warm "
@@ -105,6 +120,23 @@ TRUSTED_BASE = [
     "within 1e-9 * max density by independent bilinear interpolation, inside "
     "the grid, closed when closed=True); skimage's marching squares is not "
     "modelled",
+    "exceptions are judged: a KDE / contour / quantile call that raises "
+    "although the reference estimator returns numbers is a failure, except "
+    "for (a) an empty selection or no jointly finite event, (b) the "
+    "multivariate KDE with <= 2 events (statsmodels needs more observations "
+    "than variables), (c) a contour of < 3 events or of a constant axis (no "
+    "positive finite Doane spacing), (d) get_quantile_levels on a grid with "
+    "a single line or on a density containing NaN; everything else must "
+    "return values (e.g. the LinAlgError fallback of kde_gauss)",
+    "ties through stand-ins registered in the harness process: fake_kde "
+    "(kde_methods.methods['veriffake'], for get_kde_scatter and "
+    "get_kde_contour with dyadic grids on a linear scale) and "
+    "fake_downsample_grid (patched into dclab.rtdc_dataset.core."
+    "downsampling for get_downsampled_scatter): the @Cache layer and the "
+    "three real estimators are outside these ties (differential oracle)",
+    "backend pass: HDF5-backed float32 data and hierarchy children are "
+    "compared with the plain dataset at rtol 1e-6; basin features are not "
+    "exercised (C07); float32 values are generated float32-exact",
     "quantile oracle: densities at the events are recomputed with an "
     "independent bilinear interpolation; counts use a tolerance of 1e-9 * "
     "max density; events within 1e-9 (relative) of the border of the grid "
@@ -124,10 +156,12 @@ SCALES = ["linear", "log"]
 HUGE = 2 ** 70            # in units of 1/8; 2^67 as a float, exact
 
 # cases per pass: meta, stats, fake, perc, quant
-SIZES = {"quick": (80, 240, 240, 240, 120),
+SIZES = {"quick": (64, 160, 160, 160, 80),
          "thorough": (800, 2000, 2000, 2000, 1000)}
 N_WARM = {"quick": 6, "thorough": 24}
-N_DTYPE = {"quick": 30, "thorough": 200}
+N_DTYPE = {"quick": 24, "thorough": 200}
+N_HIST = {"quick": 12, "thorough": 120}
+N_BACKEND = {"quick": 4, "thorough": 40}
 
 HEADER = ("From Coq Require Import ZArith List.\nImport ListNotations.\n"
           "From Verif Require Import Model.C12.\n")
@@ -169,6 +203,12 @@ def gen_values(rng, n, style, positive):
                 rng.randint(0, 7) for _ in range(n)]
         if not positive:
             vals = [v if rng.random() < .8 else -v for v in vals]
+    elif style == "nonpos":
+        # values <= 0 with the maximum exactly 0 (a contour grid that ends
+        # at 0)
+        vals = [-rng.randint(0, 400) for _ in range(n)]
+        if n:
+            vals[rng.randrange(n)] = 0
     elif style == "cluster":
         c = [rng.randint(max(lo, 40), 800) for _ in range(2)]
         vals = [max(lo, rng.choice(c) + int(rng.gauss(0, 30)))
@@ -194,7 +234,12 @@ def inject(rng, pairs, p):
 
 
 def gen_dataset(rng, nmax=150, nfeat=None):
-    n = rng.choice([0, 1, 2, 3, 4, 5, 7, 8, 9, 12, 20, 27, 40, 64, 90, nmax])
+    # most datasets are large enough for non-degenerate estimates; the tiny
+    # ones (boundary cases of the quantifier) are a quarter
+    if rng.random() < .25:
+        n = rng.choice([0, 1, 2, 3, 4, 5, 7, 8, 9])
+    else:
+        n = rng.choice([12, 20, 27, 40, 40, 64, 64, 90, nmax])
     n = min(n, nmax)
     names = list(FEATURES)
     rng.shuffle(names)
@@ -202,7 +247,7 @@ def gen_dataset(rng, nmax=150, nfeat=None):
     feats = {}
     for nm in names:
         style = rng.choice(["spread", "spread", "cluster", "ties", "wide",
-                            "const"] if rng.random() < .6 else
+                            "const", "nonpos"] if rng.random() < .6 else
                            ["spread", "cluster"])
         positive = rng.random() < .75
         vals = gen_values(rng, n, style, positive)
@@ -273,6 +318,8 @@ def acc_for(rng, pairs):
 def gen_params(rng, n, feats):
     names = sorted(feats)
     xax, yax = rng.sample(names, 2)
+    if rng.random() < .08:
+        yax = xax
     npos = rng.choice([0, 1, 2, 2, 3, 10])
     pos = [inject(rng, gen_values(rng, npos, "spread", rng.random() < .7), .1),
            inject(rng, gen_values(rng, npos, "spread", rng.random() < .7), .1)]
@@ -287,7 +334,43 @@ def gen_params(rng, n, feats):
               rng.choice([-1, 0, 1]), rng.choice([10, 1000])],
         rm_invalid=rng.random() < .5,
         adv_seed=rng.randrange(1 << 30),
-        flow=rng.choice([None, 0.04, 0.16]))
+        flow=rng.choice([None, 0.04, 0.16]),
+        # explicit contour accuracy on EVERY scale: span / (k - 0.5)
+        acck=rng.choice([None, None, [rng.choice([3, 8, 20]),
+                                      rng.choice([3, 8, 20])]]),
+        # kde_kwargs: bins of the histogram KDE, bandwidth span/k of the
+        # multivariate KDE
+        bins=rng.choice([None, None, [rng.choice([5, 7, 12]),
+                                      rng.choice([5, 9, 15])]]),
+        bwk=rng.choice([None, None, [rng.choice([4, 10]),
+                                     rng.choice([4, 10])]]),
+        methods=rng.choice([None, None, ["Median", "Events"],
+                            ["SD", "Mean", "%-gated"], ["Mode"],
+                            ["Flow rate", "Mean"]]),
+        pos2d=rng.random() < .3)
+
+
+def derived_kwargs(par, xsel, ysel, xs, ys, kt):
+    """contour accuracies and kde_kwargs of one call; they depend on the
+    selected events only (so they are the same for the filtered, restricted
+    and adversarial dataset)"""
+    import numpy as np
+    x1, y1 = sc(xsel, xs), sc(ysel, ys)
+    good = np.isfinite(x1) & np.isfinite(y1)
+    ex, ey = x1[good], y1[good]
+    sx = float(np.ptp(ex)) if ex.size else 0.0
+    sy = float(np.ptp(ey)) if ey.size else 0.0
+    ckw, kkw = {}, {}
+    if par.get("acck") and sx > 0 and sy > 0:
+        ckw = dict(xacc=sx / (par["acck"][0] - .5),
+                   yacc=sy / (par["acck"][1] - .5))
+    elif par.get("acc") is not None and xs == "linear" and ys == "linear":
+        ckw = dict(xacc=par["acc"][0] / 8, yacc=par["acc"][1] / 8)
+    if kt == "histogram" and par.get("bins"):
+        kkw = dict(bins=(int(par["bins"][0]), int(par["bins"][1])))
+    if kt == "multivariate" and par.get("bwk") and sx > 0 and sy > 0:
+        kkw = dict(bw=(sx / par["bwk"][0], sy / par["bwk"][1]))
+    return ckw, kkw
 
 
 def gen_meta_case(rng, nmax=150):
@@ -411,9 +494,9 @@ def guarded(fn):
         return ("exc", type(e).__name__)
 
 
-def tsv_rows(ds, feats, scratch, tag):
+def tsv_rows(ds, feats, scratch, tag, filtered=True):
     path = os.path.join(scratch, "c12_%d_%s.tsv" % (os.getpid(), tag))
-    ds.export.tsv(path, feats, filtered=True, override=True)
+    ds.export.tsv(path, feats, filtered=filtered, override=True)
     with open(path, "rb") as fd:
         rows = [ln for ln in fd.read().decode("utf-8").split("\n")
                 if ln and not ln.startswith("#")
@@ -422,10 +505,10 @@ def tsv_rows(ds, feats, scratch, tag):
     return rows
 
 
-def observe(ds, case, scratch, tag, sel_of=None):
+def observe(ds, case, scratch, tag, sel_of=None, light=False):
     """All observables of the property for one dataset -> dict key->value.
-    sel_of: index array mapping the events of a restricted dataset back; only
-    used to translate the downsampling mask."""
+    light: statistics, tsv and one contour + quantile level only (used by
+    the filter-history pass)."""
     import numpy as np
     from dclab import statistics, kde_contours
     from dclab.cached import Cache
@@ -440,24 +523,35 @@ def observe(ds, case, scratch, tag, sel_of=None):
     # every registered method x every scalar feature of the dataset
     # (innate and ancillary ones, e.g. index, emodulus)
     obs["stats_all"] = guarded(lambda: statistics.get_statistics(ds))
+    if par.get("methods"):
+        obs["stats_methods"] = guarded(lambda: statistics.get_statistics(
+            ds, methods=list(par["methods"]), features=names))
     pos = [dec(par["pos"][0]), dec(par["pos"][1])]
-    for kt in KDE_TYPES:
-        for xs in SCALES:
+    xsel = np.asarray(ds[xax][ds.filter.all], dtype=np.float64)
+    ysel = np.asarray(ds[yax][ds.filter.all], dtype=np.float64)
+
+    def positions():
+        if par.get("pos2d"):
+            return np.array([pos[0], pos[1]])
+        return [pos[0].copy(), pos[1].copy()]
+    for kt in (["histogram"] if light else KDE_TYPES):
+        for xs in (["linear"] if light else SCALES):
             for ys in SCALES:
                 key = "%s/%s/%s" % (kt, xs, ys)
-                obs["scatter/" + key] = guarded(lambda: ds.get_kde_scatter(
-                    xax=xax, yax=yax, kde_type=kt, xscale=xs, yscale=ys))
-                obs["scatterpos/" + key] = guarded(
-                    lambda: ds.get_kde_scatter(
-                        xax=xax, yax=yax, kde_type=kt, xscale=xs, yscale=ys,
-                        positions=[pos[0].copy(), pos[1].copy()]))
-                kw = {}
-                if par["acc"] is not None and xs == "linear" and \
-                        ys == "linear":
-                    kw = dict(xacc=par["acc"][0] / 8, yacc=par["acc"][1] / 8)
+                ckw, kkw = derived_kwargs(par, xsel, ysel, xs, ys, kt)
+                kk = dict(kde_kwargs=kkw) if kkw else {}
+                if not light:
+                    obs["scatter/" + key] = guarded(
+                        lambda: ds.get_kde_scatter(
+                            xax=xax, yax=yax, kde_type=kt, xscale=xs,
+                            yscale=ys, **kk))
+                    obs["scatterpos/" + key] = guarded(
+                        lambda: ds.get_kde_scatter(
+                            xax=xax, yax=yax, kde_type=kt, xscale=xs,
+                            yscale=ys, positions=positions(), **kk))
                 cont = guarded(lambda: ds.get_kde_contour(
                     xax=xax, yax=yax, kde_type=kt, xscale=xs, yscale=ys,
-                    **kw))
+                    **ckw, **kk))
                 obs["contour/" + key] = cont
                 if cont[0] == "ok" and kt != "none":
                     X, Y, Z = cont[1]
@@ -468,9 +562,11 @@ def observe(ds, case, scratch, tag, sel_of=None):
                             ds[yax][ds.filter.all], q=[q, 0.5],
                             normalize=par["normalize"]))
     m = int(np.sum(ds.filter.all))
-    for dsz in sorted(set([par["down"][0], max(0, m + par["down"][1]),
-                           par["down"][2]])):
-        for xs, ys in (("linear", "linear"), ("log", "linear")):
+    sizes = sorted(set([par["down"][0], max(0, m + par["down"][1]),
+                        par["down"][2]]))
+    for dsz in (sizes[:1] if light else sizes):
+        for xs, ys in (("linear", "linear"), ("log", "linear"),
+                       ("linear", "log")):
             key = "down/%d/%s/%s" % (dsz, xs, ys)
             r = guarded(lambda: ds.get_downsampled_scatter(
                 xax=xax, yax=yax, downsample=dsz, xscale=xs, yscale=ys,
@@ -484,9 +580,16 @@ def observe(ds, case, scratch, tag, sel_of=None):
                 obs[key + "/maskok"] = ("ok", bool(okm))
                 r = ("ok", (x, y))
             obs[key] = r
+            if xs == "linear" and ys == "linear":
+                obs[key + "/nomask"] = guarded(
+                    lambda: ds.get_downsampled_scatter(
+                        xax=xax, yax=yax, downsample=dsz,
+                        remove_invalid=par["rm_invalid"]))
     obs["tsv"] = guarded(lambda: tsv_rows(ds, names, scratch, tag))
-    # warnings of the log transformation that reach the caller: must not
-    # depend on excluded (e.g. non-positive) values
+    obs["tsv_all"] = guarded(lambda: tsv_rows(ds, names, scratch, tag,
+                                              filtered=False))
+    # warnings of the log transformation that reach the caller (recorded,
+    # not compared: message texts are not part of the property)
     obs["logwarn"] = ("ok", sorted(set(LOGWARN)))
     return obs
 
@@ -506,7 +609,10 @@ def compare_obs(oa, ob, la, lb, skip=()):
             if a[1] != b[1]:
                 fails.append("%s: %s raises %s, %s raises %s" % (
                     k, la, a[1], lb, b[1]))
-        elif k in ("stats", "stats_all"):
+        elif k in ("logwarn",) or (k == "tsv_all" and lb == "restricted") \
+                or (k == "tsv_all" and lb == "adversarial"):
+            continue      # all events: differs by construction
+        elif k in ("stats", "stats_all", "stats_methods"):
             ha, va = a[1]
             hb, vb = b[1]
             if ha != hb:
@@ -517,7 +623,9 @@ def compare_obs(oa, ob, la, lb, skip=()):
                     continue
                 if lb == "restricted" and "Index" in h:
                     continue       # event numbers are renumbered there
-                if canon(float(x)) != canon(float(y)):
+                # same selected values -> same statistic; one part in 1e12
+                # is left to the summation order
+                if not close(float(x), float(y), 1e-12, 0):
                     fails.append("statistic %r: %s dataset %r, %s dataset %r"
                                  % (h, la, float(x), lb, float(y)))
         elif canon(a[1]) != canon(b[1]):
@@ -650,6 +758,33 @@ def check_statistics(case, obs, mask):
     return fails
 
 
+def check_stats_methods(case, obs):
+    """get_statistics(ds, methods=...) reports exactly the requested methods
+    (feature-free ones first, then per feature) with the values of the full
+    report"""
+    par = case["par"]
+    r = obs.get("stats_methods")
+    if r is None or obs["stats"][0] != "ok":
+        return []
+    if r[0] != "ok":
+        return ["get_statistics(methods=%r) raised %s" % (par["methods"],
+                                                         r[1])]
+    head, vals = obs["stats"][1]
+    full = dict(zip(head, [float(v) for v in vals]))
+    labels = [h[5:] for h in head if h.startswith("Mean ")]
+    free = ("Events", "%-gated", "Flow rate")
+    want = [m for m in par["methods"] if m in free]
+    for lb in labels:
+        want += ["%s %s" % (m, lb) for m in par["methods"] if m not in free]
+    h2, v2 = r[1]
+    if list(h2) != want:
+        return ["get_statistics(methods=%r) reports %r, expected %r" % (
+            par["methods"], list(h2), want)]
+    return ["get_statistics(methods=...): %r = %r, full report %r" % (
+        h, float(v), full[h]) for h, v in zip(h2, v2)
+        if not close(float(v), full[h], 1e-12, 0)]
+
+
 def check_statistics_all(ds, obs, mask, enable):
     """get_statistics(ds) (all registered methods x all scalar features)
     against the definitions evaluated on the finite selected values of
@@ -742,7 +877,7 @@ def ref_doane_num(a):
     return int(np.round((a.max() - a.min()) / acc))
 
 
-def ref_density(kt, ex, ey, xo, yo):
+def ref_density(kt, ex, ey, xo, yo, bins=None, bw=None):
     """reference estimator on finite events (ex, ey) at finite (xo, yo)"""
     import numpy as np
     from scipy.interpolate import RectBivariateSpline
@@ -750,7 +885,8 @@ def ref_density(kt, ex, ey, xo, yo):
     if kt == "none":
         return np.ones(xo.shape)
     if kt == "histogram":
-        bins = (max(5, ref_doane_num(ex)), max(5, ref_doane_num(ey)))
+        if bins is None:
+            bins = (max(5, ref_doane_num(ex)), max(5, ref_doane_num(ey)))
         h, xe, ye = np.histogram2d(ex, ey, bins=bins, density=True)
         xc = (xe[:-1] + xe[1:]) / 2
         yc = (ye[:-1] + ye[1:]) / 2
@@ -763,8 +899,11 @@ def ref_density(kt, ex, ey, xo, yo):
         except np.linalg.LinAlgError:
             return np.full(xo.shape, np.nan)
     if kt == "multivariate":
-        hx = ref_doane_width(ex) / 2
-        hy = ref_doane_width(ey) / 2
+        if bw is None:
+            hx = ref_doane_width(ex) / 2
+            hy = ref_doane_width(ey) / 2
+        else:
+            hx, hy = bw
         ux = (xo[:, None] - ex[None, :]) / hx
         uy = (yo[:, None] - ey[None, :]) / hy
         kk = np.exp(-.5 * (ux ** 2 + uy ** 2)) / (2 * np.pi)
@@ -815,14 +954,34 @@ def dens_close(kt, got, ref, peak=0.0):
     return None
 
 
+def may_raise(kt, ex, ey, what):
+    """inputs for which an exception is a legitimate answer although the
+    harness' reference estimator returns numbers: the statsmodels estimator
+    needs more observations than variables; a contour grid needs a positive
+    finite spacing on both axes (>= 3 events, no constant axis)"""
+    import numpy as np
+    if ex.size == 0:
+        return True
+    if kt == "multivariate" and ex.size <= 2:
+        return True
+    if what == "contour" and (ex.size < 3 or np.ptp(ex) == 0
+                              or np.ptp(ey) == 0):
+        return True
+    return False
+
+
 def check_reference(case, obs, mask):
     """dclab on the filtered dataset vs reference estimators evaluated on
-    the selected events taken directly from the case"""
+    the selected events taken directly from the case.  A call that raises
+    although the reference returns numbers is a failure (see may_raise)."""
     import numpy as np
     par = case["par"]
     fails = []
     counts = {}
     qreal = []
+
+    def cnt(k, n=1):
+        counts[k] = counts.get(k, 0) + n
     xsel = dec(case["feats"][par["xax"]])[mask]
     ysel = dec(case["feats"][par["yax"]])[mask]
     pos = [dec(par["pos"][0]), dec(par["pos"][1])]
@@ -833,114 +992,238 @@ def check_reference(case, obs, mask):
                 x1, y1 = sc(xsel, xs), sc(ysel, ys)
                 good = np.isfinite(x1) & np.isfinite(y1)
                 ex, ey = x1[good], y1[good]
+                ckw, kkw = derived_kwargs(par, xsel, ysel, xs, ys, kt)
                 peak = 0.0
                 if ex.size and kt != "none":
                     try:
                         with np.errstate(all="ignore"):
-                            pk = np.abs(ref_density(kt, ex, ey, ex, ey))
+                            pk = np.abs(ref_density(kt, ex, ey, ex, ey,
+                                                    **kkw))
                         pk = pk[np.isfinite(pk)]
                         peak = float(pk.max()) if pk.size else 0.0
                     except Exception:
                         peak = 0.0
                 for which in ("scatter", "scatterpos"):
                     r = obs[which + "/" + key]
-                    if r[0] != "ok":
-                        counts["impl-raises"] = counts.get("impl-raises",
-                                                           0) + 1
-                        continue
                     if which == "scatter":
                         ox, oy = x1, y1
                     else:
                         ox, oy = sc(pos[0], xs), sc(pos[1], ys)
                     if len(xsel) == 0:
-                        if np.asarray(r[1]).size != 0:
-                            fails.append("%s/%s: density for an empty "
-                                         "selection" % (which, key))
+                        if r[0] != "ok" or np.asarray(r[1]).size != 0:
+                            fails.append("%s/%s: %s for an empty selection"
+                                         % (which, key, short(r)))
                         continue
                     og = np.isfinite(ox) & np.isfinite(oy)
+                    ref = None
                     if kt == "none":
                         ref = np.ones(ox.shape)
                     else:
-                        ref = np.full(ox.shape, np.nan)
                         try:
                             with np.errstate(all="ignore"):
-                                ref[og] = ref_density(kt, ex, ey,
-                                                      ox[og], oy[og])
+                                val = ref_density(kt, ex, ey, ox[og], oy[og],
+                                                  **kkw)
+                            ref = np.full(ox.shape, np.nan)
+                            ref[og] = val
                         except Exception:
-                            counts["ref-raises"] = counts.get(
-                                "ref-raises", 0) + 1
-                            continue
+                            cnt("ref-raises")
+                    if r[0] != "ok":
+                        cnt("impl-raises")
+                        if ref is not None and not may_raise(kt, ex, ey,
+                                                             which):
+                            fails.append(
+                                "%s/%s raises %s for %d jointly finite "
+                                "selected events; the reference estimator "
+                                "returns values" % (which, key, r[1],
+                                                    ex.size))
+                        else:
+                            cnt("raise-legitimate")
+                        continue
+                    if ref is None:
+                        continue
                     dd = dens_close(kt, r[1], ref, peak)
-                    counts["ref-compared"] = counts.get("ref-compared",
-                                                        0) + 1
+                    cnt("ref-compared")
                     if dd:
                         tag = TWO_POS if (kt == "multivariate" and
                                           int(og.sum()) == 2) else ""
                         fails.append("%s%s/%s: %s" % (tag, which, key, dd))
-                # contour: grid by definition + density on the grid
+                # contour: grid spans the selected events; density = the
+                # reference estimator on dclab's own grid nodes
                 r = obs["contour/" + key]
-                if r[0] != "ok" or ex.size == 0:
+                if ex.size == 0:
+                    continue
+                if r[0] != "ok":
+                    cnt("impl-raises")
+                    if may_raise(kt, ex, ey, "contour"):
+                        cnt("raise-legitimate")
+                        continue
+                    # the spacing is computed per axis (own purge)
+                    try:
+                        with np.errstate(all="ignore"):
+                            if ckw:
+                                xa, ya = ckw["xacc"], ckw["yacc"]
+                            else:
+                                xa = ref_doane_width(
+                                    x1[np.isfinite(x1)]) / 5
+                                ya = ref_doane_width(
+                                    y1[np.isfinite(y1)]) / 5
+                            nx = int(np.ceil(np.ptp(ex) / xa))
+                            ny = int(np.ceil(np.ptp(ey) / ya))
+                        okgrid = nx >= 1 and ny >= 1 and nx * ny < 10 ** 7
+                    except Exception:
+                        okgrid = False
+                    if okgrid:
+                        fails.append(
+                            "contour/%s raises %s for %d jointly finite "
+                            "selected events (a %d x %d grid by definition)"
+                            % (key, r[1], ex.size, nx, ny))
+                    else:
+                        cnt("raise-legitimate")
                     continue
                 X, Y, Z = r[1]
+                lx = np.log(X) if xs == "log" else X
+                ly = np.log(Y) if ys == "log" else Y
+                okg = (X.shape == Y.shape == np.shape(Z) and X.ndim == 2
+                       and X.size > 0
+                       and np.all(lx == lx[:, :1]) and np.all(ly == ly[:1, :])
+                       and np.all(np.diff(lx[:, 0]) > 0)
+                       and np.all(np.diff(ly[0, :]) > 0))
+                if okg:
+                    tolx = 1e-9 * (abs(ex).max() + np.ptp(ex))
+                    toly = 1e-9 * (abs(ey).max() + np.ptp(ey))
+                    okg = (abs(lx[0, 0] - ex.min()) <= tolx and
+                           abs(ly[0, 0] - ey.min()) <= toly and
+                           (X.shape[0] == 1 or
+                            abs(lx[-1, 0] - ex.max()) <= tolx) and
+                           (X.shape[1] == 1 or
+                            abs(ly[0, -1] - ey.max()) <= toly))
+                if not okg and X.size == 0 and may_raise(kt, ex, ey,
+                                                          "contour"):
+                    cnt("raise-legitimate")
+                    continue
+                if not okg:
+                    fails.append("contour/%s: not a rectilinear ascending "
+                                 "grid from the minimum to the maximum of "
+                                 "the selected events (shape %s)" % (
+                                     key, list(X.shape)))
+                    continue
+                if ckw:
+                    # explicit accuracy: node distance <= accuracy (in the
+                    # scaled domain), and not finer than half of it
+                    for g, acc in ((lx[:, 0], ckw["xacc"]),
+                                   (ly[0, :], ckw["yacc"])):
+                        if g.size > 2 and not (
+                                acc / 2.5 <= np.diff(g).max() <= acc * (
+                                    1 + 1e-9) * g.size / (g.size - 1)):
+                            fails.append(
+                                "contour/%s: node distance %r for the "
+                                "requested accuracy %r" % (
+                                    key, float(np.diff(g).max()), acc))
                 try:
                     with np.errstate(all="ignore"):
-                        fx = x1[np.isfinite(x1)]
-                        fy = y1[np.isfinite(y1)]
-                        if par["acc"] is not None and xs == "linear" and \
-                                ys == "linear":
-                            xacc, yacc = par["acc"][0] / 8, par["acc"][1] / 8
-                        else:
-                            xacc = ref_doane_width(fx) / 5
-                            yacc = ref_doane_width(fy) / 5
-                        nx = int(np.ceil((ex.max() - ex.min()) / xacc))
-                        ny = int(np.ceil((ey.max() - ey.min()) / yacc))
-                        gx = np.linspace(ex.min(), ex.max(), nx)
-                        gy = np.linspace(ey.min(), ey.max(), ny)
-                        mx, my = np.meshgrid(gx, gy, indexing="ij")
-                        ref = ref_density(kt, ex, ey, mx.ravel(),
-                                          my.ravel()).reshape(mx.shape)
-                        bx = np.exp(mx) if xs == "log" else mx
-                        by = np.exp(my) if ys == "log" else my
+                        ref = ref_density(kt, ex, ey, lx.ravel(), ly.ravel(),
+                                          **kkw).reshape(X.shape)
                 except Exception:
-                    counts["ref-raises"] = counts.get("ref-raises", 0) + 1
+                    cnt("ref-raises")
                     continue
-                counts["ref-contour"] = counts.get("ref-contour", 0) + 1
-                if X.shape != bx.shape or not np.allclose(
-                        X, bx, rtol=1e-12, atol=0, equal_nan=True) or \
-                        not np.allclose(Y, by, rtol=1e-12, atol=0,
-                                        equal_nan=True):
-                    fails.append("contour/%s: grid differs from linspace("
-                                 "min, max, ceil(range/acc)) of the selected "
-                                 "events" % key)
-                    continue
+                cnt("ref-contour")
                 dd = dens_close(kt, Z, ref, peak)
                 if dd:
                     tag = TWO_POS if (kt == "multivariate" and
                                       Z.size == 2) else ""
                     fails.append("%scontour/%s: %s" % (tag, key, dd))
+                if kt == "none":
+                    continue
                 # quantile level: fraction of events below it
                 qr = obs.get("quantile/" + key)
-                if qr is None or qr[0] != "ok":
+                fin = np.isfinite(xsel) & np.isfinite(ysel)
+                if qr is None:
+                    continue
+                if qr[0] != "ok":
+                    if X.shape[0] >= 2 and X.shape[1] >= 2 and fin.any() \
+                            and np.all(np.isfinite(Z)):
+                        fails.append(
+                            "quantile/%s: get_quantile_levels raises %s on "
+                            "a %d x %d grid with %d finite events" % (
+                                key, qr[1], X.shape[0], X.shape[1],
+                                int(fin.sum())))
+                    else:
+                        cnt("raise-legitimate")
                     continue
                 dd = check_quantile(X, Y, Z, xsel, ysel, par, qr[1])
-                counts["quantile"] = counts.get("quantile", 0) + 1
+                cnt("quantile")
                 if dd:
                     fails.append("quantile/%s: %s" % (key, dd))
                 # contours at the reported levels
                 levs = [float(v) for v in np.atleast_1d(qr[1])] \
                     if par["normalize"] else [0.5, 0.1]
                 dd, nc = check_contours(X, Y, Z, levs[:2])
-                counts["contours"] = counts.get("contours", 0) + nc
+                cnt("contours", nc)
                 if dd:
                     fails.append("contours/%s: %s" % (key, dd))
                 if xs == "linear" and ys == "linear":
                     rec = quantile_record(X, Y, Z, xsel, ysel, par["q"][0],
-                                          par["q"][1])
-                    if rec is not None:
-                        rec["key"] = key
-                        qreal.append(rec)
+                                          par["q"][1], par["normalize"])
+                    for rc in (rec or []):
+                        rc["key"] = key
+                        qreal.append(rc)
     counts["qreal"] = qreal
     return fails, counts
+
+
+def check_tsv_down(case, obs, mask):
+    """definitions: the tsv rows are '%.10e' of the selected (or all) events
+    in sorted feature order; downsampled points are a subsequence of the
+    selected events, all of them for downsample=0"""
+    import numpy as np
+    fails = []
+    names = sorted(case["feats"])
+    cols = [dec(case["feats"][k]) for k in names]
+    for key, sel in (("tsv", mask), ("tsv_all", np.ones(len(mask), bool))):
+        r = obs.get(key)
+        if r is None:
+            continue
+        if r[0] != "ok":
+            fails.append("%s export raises %s" % (key, r[1]))
+            continue
+        want = ["\t".join("%.10e" % c[i] for c in cols)
+                for i in np.where(sel)[0]]
+        if list(r[1]) != want:
+            fails.append("%s: %d rows written, %d events selected; first "
+                         "difference at row %d" % (
+                             key, len(r[1]), len(want),
+                             next((i for i, (u, v) in enumerate(
+                                 zip(r[1], want)) if u != v),
+                                 min(len(r[1]), len(want)))))
+    xs = dec(case["feats"][case["par"]["xax"]])[mask]
+    ys = dec(case["feats"][case["par"]["yax"]])[mask]
+    pairs = list(zip(xs.tolist(), ys.tolist()))
+
+    def same(a, b):
+        return (a == b) or (a != a and b != b)
+    for k, r in obs.items():
+        if not k.startswith("down/") or k.endswith("/maskok") or \
+                r[0] != "ok":
+            continue
+        x, y = r[1]
+        j = 0
+        okk = len(x) == len(y)
+        for u, v in zip(np.asarray(x).tolist(), np.asarray(y).tolist()):
+            while j < len(pairs) and not (same(pairs[j][0], u)
+                                          and same(pairs[j][1], v)):
+                j += 1
+            if j == len(pairs):
+                okk = False
+                break
+            j += 1
+        dsz = int(k.split("/")[1])
+        if okk and dsz == 0 and not case["par"]["rm_invalid"] and \
+                len(x) != len(pairs):
+            okk = False
+        if not okk:
+            fails.append("%s: the returned points are not a subsequence of "
+                         "the selected events" % k)
+    return fails
 
 
 def bilinear(gx, gy, Z, px, py):
@@ -1025,20 +1308,21 @@ def check_contours(X, Y, Z, rel_levels):
     return None, ncont
 
 
-def quantile_record(X, Y, Z, xsel, ysel, a, b):
-    """get_quantile_levels on a real KDE vs the exact linear-interpolation
-    percentile (Model/C12.v:perc_lin) of the densities interpolated
-    bilinearly at the events, as exact dyadic integers"""
+def quantile_record(X, Y, Z, xsel, ysel, a, b, normalize=False):
+    """get_quantile_levels (array q, normalize as drawn) on a real KDE vs
+    the exact linear-interpolation percentile (Model/C12.v:perc_lin) of the
+    densities interpolated bilinearly at the events, as exact dyadic
+    integers.  Returns a list of records (one per quantile)."""
     import numpy as np
     from dclab import kde_contours
     gx, gy = X[:, 0], Y[0, :]
     if gx.size < 2 or gy.size < 2 or not np.all(np.isfinite(Z)) or \
-            not (np.all(np.diff(gx) > 0) and np.all(np.diff(gy) > 0)) or \
-            gx.max() <= 0 or gy.max() <= 0:
+            not (np.all(np.diff(gx) > 0) and np.all(np.diff(gy) > 0)):
         return None
     good = np.isfinite(xsel) & np.isfinite(ysel)
     px, py = xsel[good], ysel[good]
-    if px.size == 0:
+    top = float(Z.max())
+    if px.size == 0 or (normalize and not top > 0):
         return None
     for g, p in ((gx, px), (gy, py)):
         for edge in (g[0], g[-1]):
@@ -1046,8 +1330,8 @@ def quantile_record(X, Y, Z, xsel, ysel, a, b):
             if np.any((p != edge) & (np.abs(p - edge) <= 1e-9 * abs(edge))):
                 return None
     try:
-        lev = float(kde_contours.get_quantile_levels(
-            Z, X, Y, xsel, ysel, q=a / b, normalize=False))
+        levs = kde_contours.get_quantile_levels(
+            Z, X, Y, xsel, ysel, q=[a / b, 0.5], normalize=normalize)
     except Exception:
         return None
     dp = bilinear(gx, gy, Z, px, py)
@@ -1056,8 +1340,10 @@ def quantile_record(X, Y, Z, xsel, ysel, a, b):
     if den.bit_length() > 1100:
         return None
     ints = [int(f * den) for f in fr]
-    return dict(a=a, b=b, ints=ints, shift=den.bit_length() - 1, level=lev,
-                top=float(np.max(np.abs(dp))))
+    scale = top if normalize else 1.0
+    return [dict(a=aa, b=bb, ints=ints, shift=den.bit_length() - 1,
+                 level=float(lv) * scale, top=float(np.max(np.abs(dp))))
+            for (aa, bb), lv in zip([(a, b), (1, 2)], levs)]
 
 
 def check_quantile(X, Y, Z, xsel, ysel, par, levels):
@@ -1065,9 +1351,6 @@ def check_quantile(X, Y, Z, xsel, ysel, par, levels):
     gx, gy = X[:, 0], Y[0, :]
     if gx.size < 2 or gy.size < 2 or not np.all(np.isfinite(Z)) or \
             not (np.all(np.diff(gx) > 0) and np.all(np.diff(gy) > 0)):
-        return None
-    if gx.max() <= 0 or gy.max() <= 0:
-        # the implementation normalises by the largest grid coordinate
         return None
     good = np.isfinite(xsel) & np.isfinite(ysel)
     px, py = xsel[good], ysel[good]
@@ -1079,7 +1362,8 @@ def check_quantile(X, Y, Z, xsel, ysel, par, levels):
     amb = 0
     for g, p in ((gx, px), (gy, py)):
         for edge in (g[0], g[-1]):
-            amb += int(np.sum(np.abs(p - edge) <= 1e-9 * abs(edge)))
+            amb += int(np.sum((p != edge) &
+                              (np.abs(p - edge) <= 1e-9 * abs(edge))))
     top = float(Z.max())
     if par["normalize"]:
         dp = dp / top
@@ -1145,6 +1429,8 @@ def meta_worker(args):
         counts["adversarial-compared"] = 1
     # definitions and reference estimators
     fails += check_statistics(case, obsA, mask)
+    fails += check_tsv_down(case, obsA, mask)
+    fails += check_stats_methods(case, obsA)
     sa = check_statistics_all(dsA, obsA, mask, flt["kind"] != "disabled")
     if isinstance(sa, tuple):
         fails += sa[0]
@@ -1289,6 +1575,196 @@ def warm_worker(args):
     Cache.clear_cache()
     return dict(fails=fails, counts={"warm-states": len(case["states"])},
                 nontrivial=True, m=int(masks[-1].sum()))
+
+
+# --------------------------------------------------------------------------
+# filter-history pass: ONE dataset object is re-filtered several times
+# (manual changes, box filter set and removed, filtering disabled and
+# enabled again); after every apply_filter() statistics, tsv, a contour and
+# its quantile levels must be those of a fresh dataset of the selected events
+# --------------------------------------------------------------------------
+def gen_history_case(rng):
+    n, feats = gen_dataset(rng, 40)
+    while n < 5:
+        n, feats = gen_dataset(rng, 40)
+    names = sorted(feats)
+    states = []
+    for _ in range(rng.randint(2, 4)):
+        st = dict(manual=[1 if rng.random() < rng.choice([.3, .7, .95])
+                          else 0 for _ in range(n)],
+                  enable=rng.random() < .8, box=None)
+        if rng.random() < .4:
+            nm = rng.choice(names)
+            fin = sorted(k for t, k in feats[nm] if t == 0) or [0, 8]
+            a, b = rng.choice(fin), rng.choice(fin)
+            if a == b:
+                b = a + 8
+            st["box"] = [nm, min(a, b), max(a, b)]
+        states.append(st)
+    return dict(kind="history", n=n, feats=feats, states=states,
+                par=gen_params(rng, n, feats))
+
+
+def history_worker(args):
+    import warnings
+    warnings.simplefilter("ignore")
+    case, scratch = args
+    import numpy as np
+    import dclab
+    names = sorted(case["feats"])
+    data = {k: dec(case["feats"][k]) for k in names}
+    ds = dclab.new_dataset({k: v.copy() for k, v in data.items()})
+    configure(ds, case["par"].get("flow"))
+    fails = []
+    for k, st in enumerate(case["states"]):
+        ds.filter.manual[:] = np.array(st["manual"], dtype=bool)
+        ds.config["filtering"]["enable filters"] = bool(st["enable"])
+        for nm in names:
+            # equal limits = no box filter on that feature
+            a, b = (st["box"][1] / 8, st["box"][2] / 8) \
+                if st["box"] and st["box"][0] == nm else (0.0, 0.0)
+            ds.config["filtering"][nm + " min"] = a
+            ds.config["filtering"][nm + " max"] = b
+        ds.apply_filter()
+        mask = np.array(ds.filter.all, dtype=bool).copy()
+        # what the settings mean (box filters exclude NaN), independently
+        want = np.ones(case["n"], dtype=bool)
+        if st["enable"]:
+            want &= np.array(st["manual"], dtype=bool)
+            if st["box"]:
+                v = data[st["box"][0]]
+                with np.errstate(all="ignore"):
+                    want &= (v >= st["box"][1] / 8) & (v <= st["box"][2] / 8)
+        if not np.array_equal(mask, want):
+            fails.append("state %d: filter.all selects %d events, the "
+                         "settings select %d" % (k, mask.sum(), want.sum()))
+            continue
+        obs = observe(ds, case, scratch, "H", light=True)
+        c2 = dict(case, filt=dict(kind="manual" if st["enable"]
+                                  else "disabled"))
+        for f in check_statistics(c2, obs, mask) + \
+                check_tsv_down(c2, obs, mask) + check_stats_methods(c2, obs):
+            fails.append("state %d: %s" % (k, f))
+        sa = check_statistics_all(ds, obs, mask, st["enable"])
+        for f in (sa[0] if isinstance(sa, tuple) else sa):
+            fails.append("state %d: %s" % (k, f))
+        if mask.any():
+            dsr = build_from_arrays({kk: v[mask] for kk, v in data.items()},
+                                    flow=case["par"].get("flow"))
+            obr = observe(dsr, case, scratch, "HR", light=True)
+            for f in compare_obs(obs, obr, "re-filtered (state %d)" % k,
+                                 "restricted"):
+                fails.append(f)
+    return dict(fails=fails, counts={"history-states": len(case["states"])},
+                nontrivial=True, m=0)
+
+
+# --------------------------------------------------------------------------
+# backend pass: the same selected events behind other dataset classes - an
+# HDF5 file (features stored as float32) and a hierarchy child - must give
+# the results of the plain dataset of the selected events
+# --------------------------------------------------------------------------
+def gen_backend_case(rng):
+    n = rng.choice([12, 25, 50])
+    feats = {"area_um": [[0, rng.randint(80, 2000)] for _ in range(n)],
+             "deform": [[0, rng.randint(1, 400)] for _ in range(n)]}
+    for k in feats:
+        for i in range(n):
+            if rng.random() < .08:
+                feats[k][i] = [1, 0]
+    return dict(kind="backend", n=n, feats=feats,
+                mask=[1 if rng.random() < .7 else 0 for _ in range(n)],
+                down=rng.choice([0, 3, 7]))
+
+
+def backend_observe(ds, case):
+    from dclab import statistics
+    from dclab.cached import Cache
+    Cache.clear_cache()
+    obs = {}
+    obs["stats"] = guarded(lambda: statistics.get_statistics(
+        ds, features=["area_um", "deform"]))
+    for kt in ("histogram", "gauss", "multivariate"):
+        for xs in SCALES:
+            obs["scatter/%s/%s" % (kt, xs)] = guarded(
+                lambda: ds.get_kde_scatter(kde_type=kt, xscale=xs))
+        obs["contour/%s" % kt] = guarded(
+            lambda: ds.get_kde_contour(kde_type=kt))
+    obs["down"] = guarded(lambda: ds.get_downsampled_scatter(
+        downsample=case["down"]))
+    return obs
+
+
+def backend_worker(args):
+    import warnings
+    warnings.simplefilter("ignore")
+    case, scratch = args
+    import numpy as np
+    import dclab
+    from . import gen
+    data = {k: dec(v) for k, v in case["feats"].items()}
+    mask = np.array(case["mask"], dtype=bool)
+    fails = []
+    counts = {}
+    if not mask.any():
+        return dict(fails=[], counts={}, nontrivial=False, m=0)
+    ref = dclab.new_dataset({k: v[mask] for k, v in data.items()})
+    ref.apply_filter()
+    oref = backend_observe(ref, case)
+    path = os.path.join(scratch, "c12_backend_%d.rtdc" % os.getpid())
+    gen.write_spec(path, dict(n=case["n"], features={
+        k: v.astype(np.float32) for k, v in data.items()},
+        meta=gen.base_meta()))
+    variants = []
+    h5 = dclab.new_dataset(path)
+    h5.filter.manual[:] = mask
+    h5.apply_filter()
+    counts["backend:hdf5 dtype " + str(h5["area_um"][:].dtype)] = 1
+    variants.append(("HDF5-backed", h5))
+    par = dclab.new_dataset(data)
+    par.filter.manual[:] = mask
+    par.apply_filter()
+    variants.append(("hierarchy child", dclab.new_dataset(par)))
+    for label, ds in variants:
+        ob = backend_observe(ds, case)
+        for k in sorted(oref):
+            a, b = ob[k], oref[k]
+            if a[0] != b[0] or (a[0] == "exc" and a[1] != b[1]):
+                fails.append("%s: %s dataset gives %s, plain dataset of the "
+                             "selected events gives %s" % (k, label, short(a),
+                                                           short(b)))
+                continue
+            if a[0] == "exc":
+                continue
+            if k == "stats":
+                for h, u, v in zip(a[1][0], a[1][1], b[1][1]):
+                    if h == "%-gated" or "Flow" in h:
+                        continue
+                    if not close(float(u), float(v), 1e-6, 0):
+                        fails.append("%s dataset: %s = %r, plain dataset %r"
+                                     % (label, h, float(u), float(v)))
+                continue
+            ra = a[1] if isinstance(a[1], (tuple, list)) else [a[1]]
+            rb = b[1] if isinstance(b[1], (tuple, list)) else [b[1]]
+            for u, v in zip(ra, rb):
+                u = np.asarray(u, dtype=np.float64)
+                v = np.asarray(v, dtype=np.float64)
+                top = float(np.nanmax(np.abs(v))) if v.size and \
+                    np.isfinite(v).any() else 0.0
+                if u.shape != v.shape or not np.allclose(
+                        u, v, rtol=1e-6, atol=1e-9 * top, equal_nan=True):
+                    fails.append("%s: %s dataset differs from the plain "
+                                 "dataset of the selected events (%s vs %s)"
+                                 % (k, label, short(a), short(b)))
+                    break
+    try:
+        h5.close() if hasattr(h5, "close") else None
+        os.unlink(path)
+    except OSError:
+        pass
+    return dict(fails=fails, counts=counts, nontrivial=bool(0 < mask.sum()
+                                                          < case["n"]),
+                m=int(mask.sum()))
 
 
 # --------------------------------------------------------------------------
@@ -1602,7 +2078,8 @@ def gen_fake_case(rng):
     npos = rng.choice([0, 1, 4, 9]) if haspos else 0
     px = inject(rng, gen_values(rng, npos, "spread", rng.random() < .6), .2)
     py = inject(rng, gen_values(rng, npos, "spread", rng.random() < .6), .2)
-    return dict(kind="fake", n=n, xs=xs, ys=ys, mask=mask,
+    return dict(kind="fake", none=rng.random() < .15, n=n, xs=xs, ys=ys,
+                mask=mask,
                 enable=(kind != "disabled"), sx=rng.randint(0, 1),
                 sy=rng.randint(0, 1), haspos=haspos, px=px, py=py)
 
@@ -1619,6 +2096,8 @@ def fake_impl(case):
     kw = dict(xax="area_um", yax="deform", kde_type="veriffake",
               xscale=SCALES[case["sx"]], yscale=SCALES[case["sy"]],
               kde_kwargs=dict(unlog=(case["sx"], case["sy"])))
+    if case.get("none"):
+        kw.update(kde_type="none", kde_kwargs=None)
     if case["haspos"]:
         kw["positions"] = [dec(case["px"]), dec(case["py"])]
     try:
@@ -1637,10 +2116,165 @@ def fake_impl(case):
 
 
 def fake_render(case):
-    return "(%s, %s, %d, %d, %s, %s, %s, %s, %s)" % (
+    return "(%s, %s, %d, %d, %s, %s, %s, %s, %s, %s)" % (
         common.blit(case["enable"]), common.blist(case["mask"]), case["sx"],
         case["sy"], fvl(case["xs"]), fvl(case["ys"]),
-        common.blit(case["haspos"]), fvl(case["px"]), fvl(case["py"]))
+        common.blit(case["haspos"]), fvl(case["px"]), fvl(case["py"]),
+        common.blit(case.get("none", False)))
+
+
+def enc_floats(arr):
+    import numpy as np
+    flat = []
+    for v in np.asarray(arr, dtype=np.float64).ravel():
+        if np.isnan(v):
+            flat += [1, 0]
+        elif v == np.inf:
+            flat += [2, 0]
+        elif v == -np.inf:
+            flat += [3, 0]
+        elif v * 8 != np.round(v * 8):
+            flat += [7, 0]
+        else:
+            flat += [0, int(np.round(v * 8))]
+    return flat
+
+
+# --------------------------------------------------------------------------
+# correspondence: get_kde_contour with the stand-in estimator (linear scale,
+# explicit accuracies chosen so that the grid nodes are dyadic)
+# --------------------------------------------------------------------------
+def gen_cfake_case(rng):
+    n = rng.choice([2, 3, 5, 9, 20])
+    kx, ky = rng.choice([2, 3, 4, 6]), rng.choice([2, 3, 5])
+    ax, ay = rng.randint(-40, 200), rng.randint(-40, 200)
+    stx, sty = rng.randint(1, 30), rng.randint(1, 30)
+    bx, by = ax + (kx - 1) * stx, ay + (ky - 1) * sty
+    xs = [[0, ax], [0, bx]] + [[0, rng.randint(ax, bx)] for _ in range(n - 2)]
+    ys = [[0, ay], [0, by]] + [[0, rng.randint(ay, by)] for _ in range(n - 2)]
+    mask = [1, 1] + [1 if rng.random() < .6 else 0 for _ in range(n - 2)]
+    for i in range(2, n):
+        r = rng.random()
+        if not mask[i] and r < .7:
+            # adversarial: would change the grid if it leaked
+            xs[i] = rng.choice([[1, 0], [2, 0], [3, 0], [0, HUGE], [0, -HUGE]])
+            ys[i] = rng.choice([[1, 0], [0, HUGE], [0, ay - 99]])
+        elif mask[i] and r < .2:
+            (xs if rng.random() < .5 else ys)[i] = rng.choice(
+                [[1, 0], [2, 0], [3, 0]])
+    kind = rng.choice(["manual", "manual", "manual", "empty", "disabled"])
+    if kind == "empty":
+        mask = [0] * n
+    if kind == "disabled":
+        for i in range(n):          # everything counts: keep it in range
+            if xs[i][0] == 0:
+                xs[i][1] = min(max(xs[i][1], ax), bx)
+            if ys[i][0] == 0:
+                ys[i][1] = min(max(ys[i][1], ay), by)
+    return dict(kind="cfake", n=n, xs=xs, ys=ys, mask=mask, kx=kx, ky=ky,
+                span=[bx - ax, by - ay], enable=(kind != "disabled"),
+                none=rng.random() < .15)
+
+
+def cfake_impl(case):
+    import numpy as np
+    import dclab
+    install_fake()
+    ds = dclab.new_dataset(dict(area_um=dec(case["xs"]),
+                                deform=dec(case["ys"])))
+    ds.filter.manual[:] = np.array(case["mask"], dtype=bool)
+    ds.config["filtering"]["enable filters"] = bool(case["enable"])
+    ds.apply_filter()
+    kw = dict(xax="area_um", yax="deform", kde_type="veriffake",
+              xacc=case["span"][0] / 8 / (case["kx"] - .5),
+              yacc=case["span"][1] / 8 / (case["ky"] - .5),
+              kde_kwargs=dict(unlog=(0, 0)))
+    if case.get("none"):
+        kw.update(kde_type="none", kde_kwargs=None)
+    try:
+        X, Y, Z = ds.get_kde_contour(**kw)
+    except Exception:
+        return [1]
+    return [0, int(np.size(X))] + enc_floats(X) + enc_floats(Y) + \
+        enc_floats(Z)
+
+
+def cfake_render(case):
+    return "(%s, %s, %s, %s, %d, %d, %s)" % (
+        common.blit(case["enable"]), common.blist(case["mask"]),
+        fvl(case["xs"]), fvl(case["ys"]), case["kx"], case["ky"],
+        common.blit(case.get("none", False)))
+
+
+# --------------------------------------------------------------------------
+# correspondence: get_downsampled_scatter(ret_mask=True) with a stand-in for
+# downsample_grid
+# --------------------------------------------------------------------------
+def fake_downsample_grid(a, b, samples, remove_invalid=False, ret_idx=False):
+    """mirrors Model/C12.v:dsgrid_fake"""
+    import numpy as np
+    a = np.asarray(a, dtype=np.float64)
+    b = np.asarray(b, dtype=np.float64)
+    fin = np.isfinite(a) & np.isfinite(b)
+    idx = np.zeros(a.size, dtype=bool)
+    with np.errstate(all="ignore"):
+        k = np.round(np.where(fin, a, 0) * 8) + np.round(
+            np.where(fin, b, 0) * 8) + int(samples)
+    idx[fin] = (k[fin] % 2 == 0)
+    idx[~fin] = not remove_invalid
+    if ret_idx:
+        return a[idx], b[idx], idx
+    return a[idx], b[idx]
+
+
+def gen_dfake_case(rng):
+    n = rng.choice([0, 1, 2, 5, 9, 20])
+    xs = inject(rng, gen_values(rng, n, "spread", False), .15)
+    ys = inject(rng, gen_values(rng, n, "spread", False), .15)
+    kind = rng.choice(["manual", "manual", "disabled", "empty", "none"])
+    mask = [1] * n if kind == "none" else [0] * n if kind == "empty" else \
+        [1 if rng.random() < .6 else 0 for _ in range(n)]
+    if kind != "disabled":
+        for arr in (xs, ys):
+            for i in range(n):
+                if not mask[i] and rng.random() < .7:
+                    arr[i] = rng.choice([[1, 0], [2, 0], [3, 0], [0, HUGE],
+                                         [0, -HUGE]])
+    return dict(kind="dfake", n=n, xs=xs, ys=ys, mask=mask,
+                enable=(kind != "disabled"),
+                samples=rng.choice([0, 1, 2, 3, max(0, sum(mask) - 1),
+                                    sum(mask), sum(mask) + 4, n + 7]),
+                rm=rng.random() < .5)
+
+
+def dfake_impl(case):
+    import numpy as np
+    import dclab
+    from dclab.rtdc_dataset import core
+    ds = dclab.new_dataset(dict(area_um=dec(case["xs"]),
+                                deform=dec(case["ys"])))
+    ds.filter.manual[:] = np.array(case["mask"], dtype=bool)
+    ds.config["filtering"]["enable filters"] = bool(case["enable"])
+    ds.apply_filter()
+    real = core.downsampling.downsample_grid
+    core.downsampling.downsample_grid = fake_downsample_grid
+    try:
+        x, y, m = ds.get_downsampled_scatter(
+            xax="area_um", yax="deform", downsample=case["samples"],
+            remove_invalid=case["rm"], ret_mask=True)
+    except Exception as e:
+        return ["exc", type(e).__name__]
+    finally:
+        core.downsampling.downsample_grid = real
+    return [int(len(x))] + enc_floats(x) + enc_floats(y) + \
+        [int(v) for v in m]
+
+
+def dfake_render(case):
+    return "(%s, %s, %s, %s, %d, %s)" % (
+        common.blit(case["enable"]), common.blist(case["mask"]),
+        fvl(case["xs"]), fvl(case["ys"]), case["samples"],
+        common.blit(case["rm"]))
 
 
 # --------------------------------------------------------------------------
@@ -1899,6 +2533,9 @@ def run(run):
     while len(dtype_cases) < N_DTYPE["thorough" if run.thorough
                                      else "quick"]:
         dtype_cases.append(gen_dtype_case(run.rng))
+    hist_cases = [c for c in corpus if c.get("kind") == "history"]
+    while len(hist_cases) < N_HIST["thorough" if run.thorough else "quick"]:
+        hist_cases.append(gen_history_case(run.rng))
     meta_cases = [c for c in corpus if c.get("kind") == "meta"]
     while len(meta_cases) < n_meta:
         meta_cases.append(gen_meta_case(run.rng,
@@ -1913,6 +2550,14 @@ def run(run):
         futs = [ex.submit(meta_worker, (c, run.scratch)) for c in meta_cases]
         dfuts = [ex.submit(dtype_worker, (c, run.scratch))
                  for c in dtype_cases]
+        hfuts = [ex.submit(history_worker, (c, run.scratch))
+                 for c in hist_cases]
+        back_cases = [c for c in corpus if c.get("kind") == "backend"]
+        while len(back_cases) < N_BACKEND["thorough" if run.thorough
+                                          else "quick"]:
+            back_cases.append(gen_backend_case(run.rng))
+        bfuts = [ex.submit(backend_worker, (c, run.scratch))
+                 for c in back_cases]
         s_impl = [stats_impl(c) for c in stats_cases]
         f_impl = [fake_impl(c) for c in fake_cases]
         q_impl = [quant_impl(c) for c in quant_cases]
@@ -1921,6 +2566,23 @@ def run(run):
         f_model = common.coq_map(run.scratch, "c12f", HEADER, "scatter_flat",
                                  [fake_render(c) for c in fake_cases],
                                  shard=40)
+        for kind, gen_c, impl_c, rend_c, fn in (
+                ("cfake", gen_cfake_case, cfake_impl, cfake_render,
+                 "contour_flat"),
+                ("dfake", gen_dfake_case, dfake_impl, dfake_render,
+                 "down_flat")):
+            cs = [c for c in corpus if c.get("kind") == kind]
+            while len(cs) < n_fake // 2:
+                cs.append(gen_c(run.rng))
+            ims = [impl_c(c) for c in cs]
+            mods = common.coq_map(run.scratch, "c12" + kind, HEADER, fn,
+                                  [rend_c(c) for c in cs], shard=40)
+            for c, i, m in zip(cs, ims, mods):
+                run.corr_checked += 1
+                run.count("corr:" + kind)
+                run.record_case(c, 0 < sum(c["mask"]) < c["n"], sample=False)
+                if i != m:
+                    run.mismatch(c, m, i)
         p_model = common.coq_map(
             run.scratch, "c12p", HEADER, "perc_flat",
             ["(%d, %d, %s)" % (c["a"], c["b"], common.zlist(c["d"]))
@@ -1957,8 +2619,38 @@ def run(run):
                 dres.append(f.result())
             except Exception:
                 dres.append(None)
+        hres = []
+        for f in hfuts:
+            try:
+                hres.append(f.result())
+            except Exception:
+                hres.append(None)
+        bres = []
+        for f in bfuts:
+            try:
+                bres.append(f.result())
+            except Exception:
+                bres.append(None)
     retry_dead(run, meta_cases, results)
     meta_collect(run, meta_cases, results)
+    retry_dead(run, back_cases, bres, worker=backend_worker)
+    for c, r in zip(back_cases, bres):
+        run.record_case(c, r["nontrivial"], sample=False)
+        run.count("backend-case")
+        for k, v in r["counts"].items():
+            run.count(k, v)
+        if r["fails"]:
+            run.oracle_failure(c, "; ".join(r["fails"][:4]), None)
+    retry_dead(run, hist_cases, hres, worker=history_worker)
+    for c, r in zip(hist_cases, hres):
+        run.record_case(c, True, sample=False)
+        run.count("history-case")
+        run.count("history-states", r["counts"].get("history-states", 0))
+        if r["fails"]:
+            desc = "; ".join(r["fails"][:4])
+            if len(r["fails"]) > 4:
+                desc += "; ... (%d in total)" % len(r["fails"])
+            run.oracle_failure(c, desc, None)
     retry_dead(run, dtype_cases, dres, worker=dtype_worker)
     for c, r in zip(dtype_cases, dres):
         run.record_case(c, r["nontrivial"], sample=False)
@@ -2039,6 +2731,10 @@ def check_case(case, scratch):
         return warm_worker((case, scratch))["fails"]
     if kind == "dtype":
         return dtype_worker((case, scratch))["fails"]
+    if kind == "history":
+        return history_worker((case, scratch))["fails"]
+    if kind == "backend":
+        return backend_worker((case, scratch))["fails"]
     if kind == "stats":
         coq, impl = stats_impl(case)
         m = common.coq_map(scratch, "c12rs", HEADER, "stats_flat", [coq])[0]
@@ -2055,6 +2751,13 @@ def check_case(case, scratch):
                                               common.zlist(case["d"]))])[0]
         d = perc_compare(case, m)
         return [d] if d else []
+    if kind in ("cfake", "dfake"):
+        impl_c, rend_c, fn = (cfake_impl, cfake_render, "contour_flat") \
+            if kind == "cfake" else (dfake_impl, dfake_render, "down_flat")
+        m = common.coq_map(scratch, "c12r" + kind, HEADER, fn,
+                           [rend_c(case)])[0]
+        i = impl_c(case)
+        return [] if m == i else ["model %r, implementation %r" % (m, i)]
     if kind == "adjust":
         m = common.coq_map(scratch, "c12ra", HEADER, "adjust_flat",
                            [adjust_render(case)])[0]
